@@ -106,6 +106,10 @@ pub trait Check: Sync {
     fn extra_coverage(&self) -> Value {
         json!({})
     }
+    /// evidence level (must equal MANIFEST level_claimed.category)
+    fn level(&self) -> &'static str {
+        "exploration"
+    }
 }
 
 #[derive(Serialize, Deserialize, Default, Debug)]
@@ -829,7 +833,7 @@ fn parent_main<C: Check>(check: &C, a: &Args, tmpdir: &Path) -> i32 {
         "property_id": id,
         "tier": a.tier.name(),
         "seed": seed as i64,
-        "level": "exploration",
+        "level": check.level(),
         "coverage": coverage,
         "assumptions": check.assumptions(),
         "wall_s": wall,
